@@ -465,7 +465,25 @@ func c16Uncommitted(c *Check) {
 			} else {
 				f := sfi.FactsAt(st.Instr)
 				prm := sfi.Sym(reduce.Params[1])
-				c.Result(f.ImpliesCmp(prm, "<=", FieldOf(base, uncomF)), "C16.U", "uncommittedSize -= s", fnName(st.Fn), site, "subtract only when s <= uncommittedSize", strings.Join(f.Describe(), "; "))
+				// what is subtracted: s itself (then s <= uncommittedSize must be known), or min(s, uncommittedSize)
+				d := LinOf(FieldOf(base, uncomF))
+				d.add(LinOf(v), -1)
+				okSub := false
+				if len(d.T) == 1 && d.K == 0 {
+					for k, co := range d.T {
+						x := d.S[k]
+						switch {
+						case co != 1:
+						case x.Key() == prm.Key():
+							okSub = f.ImpliesCmp(prm, "<=", FieldOf(base, uncomF))
+						case x.K == KBuiltin && x.Name == "min" && len(x.Args) == 2:
+							a, b := x.Args[0].Key(), x.Args[1].Key()
+							o := FieldOf(base, uncomF).Key()
+							okSub = a == prm.Key() && b == o || b == prm.Key() && a == o
+						}
+					}
+				}
+				c.Result(okSub, "C16.U", "uncommittedSize -= s", fnName(st.Fn), site, "subtract s only when s <= uncommittedSize (or subtract min(s, uncommittedSize))", v.Key()+" {"+strings.Join(f.Describe(), "; ")+"}")
 			}
 		case reset:
 			z, isC := constInt64(v.C)
